@@ -396,6 +396,64 @@ func famLegit(r *Rng, o *Out, tier string) {
 				}
 			}
 		}
+		// ONE caveat list applied to two tokens (what bundle.Attenuate does with its arguments), the first of which
+		// already carries some of the list's elements: the second token gets - and verification of it yields - every
+		// element of the list, in order, and the caller's list is left as it was
+		if r.Chance(1, 2) {
+			keyA, keyB := r.Bytes(32), r.Bytes(32)
+			ta, _ := macaroon.New(r.Bytes(6), loc, keyA)
+			tb, _ := macaroon.New(r.Bytes(6), loc, keyB)
+			nl := 2 + r.Intn(3)
+			list := make([]macaroon.Caveat, nl)
+			for k := range list {
+				list[k] = &macaroon.ValidityWindow{NotBefore: int64(k + 1), NotAfter: int64(1000 - k)}
+			}
+			want := sxCavs(list)
+			// the first token carries a random non-empty subset of the list beforehand
+			pre := 0
+			for k := range list {
+				if r.Bool() || (k == 0 && pre == 0) {
+					ta.Add(list[k])
+					pre++
+				}
+			}
+			errA := ta.Add(list...)
+			errB := tb.Add(list...)
+			o.count(fmt.Sprintf("sharedList.len%d.pre%d", nl, pre))
+			res := "match"
+			switch {
+			case errA != nil || errB != nil:
+				res = "shared-list:add-refused"
+			case sxCavs(list) != want:
+				res = "shared-list:callers-list-rewritten"
+			default:
+				for _, tc := range []struct {
+					t *macaroon.Macaroon
+					k []byte
+				}{{ta, keyA}, {tb, keyB}} {
+					m2, err := macaroon.Decode(mustEnc(tc.t))
+					if err != nil {
+						res = "shared-list:not-decodable"
+						break
+					}
+					cs, err := m2.Verify(tc.k, nil, nil)
+					if err != nil {
+						res = "shared-list:legit-token-rejected"
+						break
+					}
+					got := map[string]bool{}
+					for _, c := range cs.Caveats {
+						got[sxCav(c)] = true
+					}
+					for _, c := range list {
+						if !got[sxCav(c)] {
+							res = "shared-list:caveat-missing-from-verified-set"
+						}
+					}
+				}
+			}
+			o.emit("(const match)", res)
+		}
 		_ = bytes.Equal
 	}
 }
